@@ -27,15 +27,16 @@ import (
 )
 
 type side struct {
-	name     string
-	mu       sync.Mutex
-	recv     map[int]int // number -> times received
-	recvN    int
-	gotFence bool
-	closes   []string
-	errors   []string
-	sent     atomic.Int64
-	lastSent atomic.Int64
+	name      string
+	mu        sync.Mutex
+	recv      map[int]int // number -> times received
+	recvN     int
+	gotFence  bool
+	closes    []string
+	closeErrs []string
+	errors    []string
+	sent      atomic.Int64
+	lastSent  atomic.Int64
 }
 
 func newSide(name string) *side { return &side{name: name, recv: map[int]int{}} }
@@ -116,7 +117,13 @@ func serverConfigFor(t trial) *eio.ServerConfig {
 	}
 	// the heartbeat travels in-band: on a loaded machine a PONG can sit behind seconds of backlog of the
 	// full-speed patterns; a generous ping timeout keeps that from being mistaken for a fault of the swap
-	return &eio.ServerConfig{UpgradeTimeout: time.Second, PingInterval: 2 * time.Second, PingTimeout: 8 * time.Second}
+	ut := time.Second
+	if t.Fault == "none" || t.Fault == "slow" {
+		// an upgrade that is expected to succeed: on a loaded machine the server's 1 s upgrade timeout can
+		// expire while the client completes the very same upgrade, which tears the connection legitimately
+		ut = 10 * time.Second
+	}
+	return &eio.ServerConfig{UpgradeTimeout: ut, PingInterval: 2 * time.Second, PingTimeout: 8 * time.Second}
 }
 
 func runTrial(run *vk.Run, t trial) (out outcome) {
@@ -148,6 +155,7 @@ func runTrial(run *vk.Run, t trial) (out outcome) {
 			OnClose: func(r eio.Reason, err error) {
 				srvSide.mu.Lock()
 				srvSide.closes = append(srvSide.closes, string(r))
+				srvSide.closeErrs = append(srvSide.closeErrs, fmt.Sprint(err))
 				srvSide.mu.Unlock()
 			},
 		}
@@ -219,6 +227,9 @@ func runTrial(run *vk.Run, t trial) (out outcome) {
 	if t.Fault == "heartbeat" {
 		ccfg.UpgradeTimeout = 3 * time.Second
 	}
+	if t.Fault == "none" || t.Fault == "slow" {
+		ccfg.UpgradeTimeout = 10 * time.Second
+	}
 	cliOnPacket := cliSide.onPacket
 	if os.Getenv("C07_DEBUG") != "" && t.Fault == "heartbeat" {
 		cliOnPacket = func(ps ...*eioparser.Packet) {
@@ -240,6 +251,7 @@ func runTrial(run *vk.Run, t trial) (out outcome) {
 		OnClose: func(r eio.Reason, err error) {
 			cliSide.mu.Lock()
 			cliSide.closes = append(cliSide.closes, string(r))
+			cliSide.closeErrs = append(cliSide.closeErrs, fmt.Sprint(err))
 			cliSide.mu.Unlock()
 		},
 	}, ccfg)
@@ -321,7 +333,7 @@ func runTrial(run *vk.Run, t trial) (out outcome) {
 				// a slowed websocket (4 ms per chunk) must not be saturated: the heartbeat travels in-band, and a
 				// PONG stuck behind seconds of backlog is a legitimate ping timeout, not a fault of the swap
 				limit := int64(8000)
-				if workers > 1 && t.Fault != "none" {
+				if workers > 1 {
 					limit = 3000
 				}
 				for next.Load() < limit && !closedNow() {
@@ -411,6 +423,12 @@ func runTrial(run *vk.Run, t trial) (out outcome) {
 	}
 	fields := map[string]any{"fault": t.Fault, "pattern": t.Pattern, "upgrade_done": out.upgradeDone}
 	wit := map[string]any{"trial": t.id(), "seed": run.Seed(), "ws_bytes_c2s": out.wsBytes[0], "ws_bytes_s2c": out.wsBytes[1]}
+	srvSide.mu.Lock()
+	wit["server_close_errors"], wit["server_errors"] = append([]string(nil), srvSide.closeErrs...), append([]string(nil), srvSide.errors...)
+	srvSide.mu.Unlock()
+	cliSide.mu.Lock()
+	wit["client_close_errors"], wit["client_errors"] = append([]string(nil), cliSide.closeErrs...), append([]string(nil), cliSide.errors...)
+	cliSide.mu.Unlock()
 	check := func(rx, tx *side, dir string) {
 		rx.mu.Lock()
 		defer rx.mu.Unlock()
@@ -459,12 +477,16 @@ func runTrial(run *vk.Run, t trial) (out outcome) {
 			run.Violation(vk.Violation{Sub: "traffic-stopped", Fields: fields,
 				What: fmt.Sprintf("connection alive but sent numbers / fence not all received within 30 s (trial %s)", t.id()), Witness: wit})
 		} else {
-			want := "websocket"
-			if !out.upgradeDone {
+			// the server flips its transport when the UPGRADE packet arrives; allow a moment. The expectation follows
+			// the client's state NOW (on a loaded machine the swap can complete after the senders have finished)
+			want := "polling"
+			ok := vk.WaitUntil(5*time.Second, func() bool {
 				want = "polling"
-			}
-			// the server flips its transport when the UPGRADE packet arrives; allow a moment
-			ok := vk.WaitUntil(5*time.Second, func() bool { return cli.TransportName() == want && ss.TransportName() == want })
+				if upgradeDone.Load() {
+					want = "websocket"
+				}
+				return cli.TransportName() == want && ss.TransportName() == want
+			})
 			if !ok {
 				run.Violation(vk.Violation{Sub: "wrong-transport", Fields: fields,
 					What: fmt.Sprintf("after the attempt transport names are client=%s server=%s, want %s (trial %s)", cli.TransportName(), ss.TransportName(), want, t.id()), Witness: wit})
